@@ -508,6 +508,134 @@ where
     Ok(())
 }
 
+/// A user-defined implementor of the public traits that supplies only the
+/// required methods: copy, apply_in_place, set, get and mask are the trait's
+/// default implementations.
+struct UserVec<W> {
+    v: Vec<W>,
+    width: usize,
+}
+impl<W: TW> BitFieldSliceCore<W> for UserVec<W> {
+    fn bit_width(&self) -> usize {
+        self.width
+    }
+    fn len(&self) -> usize {
+        self.v.len()
+    }
+}
+impl<W: TW> BitFieldSlice<W> for UserVec<W> {
+    unsafe fn get_unchecked(&self, index: usize) -> W {
+        self.v[index]
+    }
+}
+impl<W: TW> BitFieldSliceMut<W> for UserVec<W> {
+    unsafe fn set_unchecked(&mut self, index: usize, value: W) {
+        self.v[index] = value;
+    }
+    fn reset(&mut self) {
+        self.v.iter_mut().for_each(|x| *x = W::from128(0));
+    }
+    fn par_reset(&mut self) {
+        self.reset()
+    }
+    type ChunksMut<'a>
+        = std::iter::Empty<&'a mut UserVec<W>>
+    where
+        Self: 'a;
+    fn try_chunks_mut(&mut self, _chunk_size: usize) -> Result<Self::ChunksMut<'_>, ()> {
+        Err(())
+    }
+    fn as_mut_slice(&mut self) -> &mut [W] {
+        &mut self.v
+    }
+}
+impl<'a, W: TW> BitFieldSliceCore<W> for &'a mut UserVec<W> {
+    fn bit_width(&self) -> usize {
+        self.width
+    }
+    fn len(&self) -> usize {
+        self.v.len()
+    }
+}
+impl<'a, W: TW> BitFieldSlice<W> for &'a mut UserVec<W> {
+    unsafe fn get_unchecked(&self, index: usize) -> W {
+        self.v[index]
+    }
+}
+impl<'a, W: TW> BitFieldSliceMut<W> for &'a mut UserVec<W> {
+    unsafe fn set_unchecked(&mut self, index: usize, value: W) {
+        self.v[index] = value;
+    }
+    fn reset(&mut self) {
+        self.v.iter_mut().for_each(|x| *x = W::from128(0));
+    }
+    fn par_reset(&mut self) {
+        BitFieldSliceMut::<W>::reset(self)
+    }
+    type ChunksMut<'b>
+        = std::iter::Empty<&'b mut UserVec<W>>
+    where
+        Self: 'b;
+    fn try_chunks_mut(&mut self, _chunk_size: usize) -> Result<Self::ChunksMut<'_>, ()> {
+        Err(())
+    }
+    fn as_mut_slice(&mut self) -> &mut [W] {
+        &mut self.v
+    }
+}
+
+/// The default methods of `BitFieldSliceMut`, which every type of the crate
+/// overrides: a foreign implementor runs them.
+fn default_methods_case<W: TW>(cx: &mut Ctx, u: &mut Unstructured) -> R {
+    let b = W::WBITS;
+    let ws = [0usize, 1, b / 2, b - 1, b, 3][u.int_in_range(0usize..=5).unwrap_or(2)].min(b);
+    let wd = if u.arbitrary::<bool>().unwrap_or(true) { ws } else { u.int_in_range(ws..=b).unwrap_or(b) };
+    let n = len_class(u, 40);
+    let m = len_class(u, 40);
+    let salt: u64 = u.arbitrary().unwrap_or(3);
+    cx.hash(&("default-methods", W::NAME, ws, wd, n, m, salt));
+    cx.describe(|| format!("default trait methods on a user-defined implementor of {}: src width {ws} len {n}, dst width {wd} len {m}", W::NAME));
+    cx.label_if(ws != wd, "copy_between_widths");
+    cx.label_if(ws == 0 && wd > 0, "copy_from_width0");
+    cx.nontrivial_if(n >= 1 && m >= 1);
+    let src = UserVec::<W> { v: (0..n).map(|i| W::from128(field_hash(i, salt, ws))).collect(), width: ws };
+    let dst0: Vec<W> = (0..m).map(|i| W::from128(field_hash(i, salt ^ 0x99, wd) | (wd > 0) as u128)).collect();
+    let mk = cx.must("mask", || BitFieldSliceMut::<W>::mask(&src))?;
+    cx.check_eq(mk.to128(), mask128(ws), "default.mask", || format!("mask() at width {ws}"))?;
+    for _ in 0..3 {
+        let from = index(u, n + 1);
+        let to = index(u, m + 1);
+        let len = match u.int_in_range(0u8..=2).unwrap_or(0) {
+            0 => usize::MAX,
+            1 => n.max(m),
+            _ => index(u, n.max(m) + 2),
+        };
+        let mut dst = UserVec::<W> { v: dst0.clone(), width: wd };
+        cx.must("copy", || BitFieldSliceMut::<W>::copy(&src, from, &mut dst, to, len))?;
+        let mut want = dst0.clone();
+        for i in 0..len.min(n - from).min(m - to) {
+            want[to + i] = src.v[from + i];
+        }
+        cx.check(dst.v == want, "default.copy", || format!("default copy({from}, dst, {to}, {len}) from width {ws} (len {n}) into width {wd} (len {m})"))?;
+    }
+    let mut v = UserVec::<W> { v: src.v.clone(), width: ws };
+    let mut seen = vec![];
+    cx.must("apply_in_place", || BitFieldSliceMut::<W>::apply_in_place(&mut v, |x| { seen.push(x.to128()); W::from128(!x.to128() & mask128(ws)) }))?;
+    cx.check(seen == src.v.iter().map(|x| x.to128()).collect::<Vec<_>>(), "default.apply", || format!("default apply_in_place at width {ws}: f saw {} values", seen.len()))?;
+    cx.check(v.v.iter().zip(src.v.iter()).all(|(a, o)| a.to128() == !o.to128() & mask128(ws)), "default.apply", || "default apply_in_place stored wrong results".to_string())?;
+    if n > 0 && ws < b {
+        let i = index(u, n);
+        cx.must_panic("set(too large)", || BitFieldSliceMut::<W>::set(&mut v, i, W::from128(mask128(ws) + 1)))?;
+        cx.must_panic("set(len)", || BitFieldSliceMut::<W>::set(&mut v, n, W::from128(0)))?;
+        if ws > 0 {
+            cx.must("set", || BitFieldSliceMut::<W>::set(&mut v, i, W::from128(1)))?;
+            let g = cx.must("get", || BitFieldSlice::<W>::get(&v, i))?;
+            cx.check_eq(g.to128(), 1, "default.set", || format!("get({i}) after set({i}, 1)"))?;
+        }
+    }
+    Ok(())
+}
+
 macro_rules! by_word {
     ($sel:expr, $f:ident, $cx:expr, $u:expr) => {
         match $sel % 6 {
@@ -540,10 +668,12 @@ impl Property for C10 {
             Segment::enumerated("parallel-counts-above-2^33-ones-in-small-pools", tier.pick(2, 4), &[0xF2]),
             // Vec<W> / Box<[W]> / [W; N] seen as bit-field slices of full width
             Segment::random("plain-slices", tier.pick(60_000, 1_000_000), &[6], 8, 60),
+            // the trait's default methods, run by a user-defined implementor
+            Segment::random("default-methods", tier.pick(60_000, 1_000_000), &[7], 8, 60),
         ]
     }
     fn rule(&self) -> &'static str {
-        "cases decoded from bytes, vectors filled with non-periodic contents (field i = hash(i) masked): (a) copy(from,dst,to,len) for the six word types, generated widths, lengths, spare words, from<=src.len, to<=dst.len, len up to usize::MAX (incl. usize::MAX - to + 1), against the element loop on a clone, all of dst compared, src unchanged; plus the complete enumeration for u8 (widths 1..8) and u16 (widths 1..16) with src.len=dst.len=24 over every (from,to,len) in [0,24]^3; (b) apply_in_place with a recording closure on fresh vectors and vectors with spare words (after resize/clear+push/new_unaligned): exactly len calls, in index order, on the current values, results stored, over-wide result must panic; (c) reset/par_reset/reset_atomic/par_reset_atomic and BitVec fill/par_fill/flip/par_flip/reset/par_reset/count_ones/par_count_ones and the atomic twins against per-element loops; (d) try_chunks_mut(c>=1): Ok exactly when len<=c or c*width is a multiple of W::BITS, chunk count/lengths/reads, writes land on exactly the corresponding elements; (e) get_unaligned(i)==get(i) on new_unaligned vectors for widths <= BITS-6, BITS-4, BITS. (f) the parallel variants (par_count_ones, par_flip, par_fill, par_reset, atomic twins, BitFieldVec par_reset/par_reset_atomic) on 12.8-64 Mbit vectors, i.e. above the 2 x 100000-word threshold below which rayon does not split them, in rayon pools of 1, 2, 3 and the default number of threads; and all-ones vectors of 2^33..2^34+2^32 bits counted in pools of 1-2 threads (a single leaf above 2^32 ones). (g) the blanket implementations for plain Vec<W>/Box<[W]> (full-width bit-field slices): get/set/copy/apply_in_place/try_chunks_mut/reset/par_reset against the slice itself. Non-trivial: the operation touches at least 2 words; distinct = distinct hash of the decoded case."
+        "cases decoded from bytes, vectors filled with non-periodic contents (field i = hash(i) masked): (a) copy(from,dst,to,len) for the six word types, generated widths, lengths, spare words, from<=src.len, to<=dst.len, len up to usize::MAX (incl. usize::MAX - to + 1), against the element loop on a clone, all of dst compared, src unchanged; plus the complete enumeration for u8 (widths 1..8) and u16 (widths 1..16) with src.len=dst.len=24 over every (from,to,len) in [0,24]^3; (b) apply_in_place with a recording closure on fresh vectors and vectors with spare words (after resize/clear+push/new_unaligned): exactly len calls, in index order, on the current values, results stored, over-wide result must panic; (c) reset/par_reset/reset_atomic/par_reset_atomic and BitVec fill/par_fill/flip/par_flip/reset/par_reset/count_ones/par_count_ones and the atomic twins against per-element loops; (d) try_chunks_mut(c>=1): Ok exactly when len<=c or c*width is a multiple of W::BITS, chunk count/lengths/reads, writes land on exactly the corresponding elements; (e) get_unaligned(i)==get(i) on new_unaligned vectors for widths <= BITS-6, BITS-4, BITS. (f) the parallel variants (par_count_ones, par_flip, par_fill, par_reset, atomic twins, BitFieldVec par_reset/par_reset_atomic) on 12.8-64 Mbit vectors, i.e. above the 2 x 100000-word threshold below which rayon does not split them, in rayon pools of 1, 2, 3 and the default number of threads; and all-ones vectors of 2^33..2^34+2^32 bits counted in pools of 1-2 threads (a single leaf above 2^32 ones). (g) the blanket implementations for plain Vec<W>/Box<[W]> (full-width bit-field slices): get/set/copy/apply_in_place/try_chunks_mut/reset/par_reset against the slice itself. (h) the trait's default copy/apply_in_place/set/mask, which every type of the crate overrides, run by a harness-defined implementor (also between different bit widths, source width 0 included). Non-trivial: the operation touches at least 2 words; distinct = distinct hash of the decoded case."
     }
     fn run(&self, data: &[u8], cx: &mut Ctx) -> R {
         let (mode, rest) = data.split_first().unwrap_or((&0, &[]));
@@ -573,6 +703,12 @@ impl Property for C10 {
             let mut b = [0u8; 8];
             b[..rest.len().min(8)].copy_from_slice(&rest[..rest.len().min(8)]);
             return par_large_case(cx, u64::from_le_bytes(b));
+        }
+        if *mode == 7 {
+            let mut u = Unstructured::new(rest);
+            let sel = u.int_in_range(0u8..=5).unwrap_or(3);
+            cx.label("default-methods");
+            return by_word!(sel, default_methods_case, cx, &mut u);
         }
         if *mode == 6 {
             let mut u = Unstructured::new(rest);
